@@ -1325,8 +1325,26 @@ def gen_scenario(rng, pid, kind):
             ops.insert(pos, rng.choice(['read %d' % i, 'mod %d %d' % (i, val()), 'peek %d' % i]))
         ops += ['read %d' % i for i in range(n)] + ['commit'] + ['peek %d' % i for i in range(n)]
         return dict(kind=kind, n=n, ops=ops)
-    t = rng.randrange(11)
-    if t == 10:     # new_oid() fails while a savepoint (after an earlier one) discovers new objects
+    t = rng.randrange(12)
+    if t == 11:     # records READ BACK from the savepoint store: an object saved by two savepoints is evicted from the
+        #             cache (cacheMinimize) and read again — served from the later savepoint's record — then a rollback
+        #             to the earlier savepoint must show (and a commit must store) the earlier record; repeated
+        ops = ['link 0 %d' % a, 'link 0 %d' % b, 'commit', 'mod %d %d' % (a, val())]
+        if rng.random() < 0.5:
+            ops += ['mod %d %d' % (b, val())]
+        ops += ['sp', 'mod %d %d' % (a, 10 + val())]
+        if rng.random() < 0.5:
+            ops += ['mod %d %d' % (b, 10 + val())]
+        ops += ['sp']
+        if rng.random() < 0.3:
+            ops += ['mod %d %d' % (rng.choice([a, b]), 20 + val()), 'sp']
+        ops += ['gc'] + rng.choice([['read %d' % a], ['read %d' % b, 'read %d' % a], ['read %d' % a, 'read %d' % b], []])
+        ops += ['rb 0'] + rng.choice([['read %d' % a], ['read %d' % a, 'read %d' % b], ['gc', 'read %d' % b, 'read %d' % a], []])
+        if rng.random() < 0.5:
+            ops += ['mod %d %d' % (rng.choice([a, b, 0]), 30 + val()), 'sp', 'gc', 'read %d' % a, 'rb %d' % rng.choice([0, 0, 1]),
+                    'read %d' % a, 'read %d' % b]
+        ops += [rng.choice(['commit', 'commit', 'abort'])]
+    elif t == 10:     # new_oid() fails while a savepoint (after an earlier one) discovers new objects
         ops = ['mod 0 %d' % val(), 'sp', 'link 0 %d' % a, 'link %d %d' % (a, b)]
         if rng.random() < 0.5:
             ops += ['link 0 %d' % c]
